@@ -165,7 +165,7 @@ func NewFG(g *exact.G) *FG {
 	return f
 }
 
-func distPtSegF(px, py float64, a, b [2]float64) float64 {
+func DistPtSegF(px, py float64, a, b [2]float64) float64 {
 	dx, dy := b[0]-a[0], b[1]-a[1]
 	l2 := dx*dx + dy*dy
 	if l2 == 0 {
@@ -186,7 +186,7 @@ func distChain(px, py float64, l [][2]float64) float64 {
 		return math.Hypot(px-l[0][0], py-l[0][1])
 	}
 	for i := 0; i+1 < len(l); i++ {
-		d = math.Min(d, distPtSegF(px, py, l[i], l[i+1]))
+		d = math.Min(d, DistPtSegF(px, py, l[i], l[i+1]))
 	}
 	return d
 }
